@@ -141,6 +141,17 @@ def check(ctx, rep):
                        '%s => %s' % (test, body), ctx.where(mt))
     rep.ob('match_types.order', 'Double before Single before Integer before String',
            kinds == ['Double', 'Single', 'Integer', 'String'], repr(kinds), ctx.where(mt))
+    # the two primitives have one path: match the operand types, then ask the matched left operand
+    for prim, meth in (('_bool_eq', 'eq'), ('_bool_gt', 'gt')):
+        pf = ctx.fn('%s:%s' % (V, prim))
+        rets = vm.returns(pf)
+        matched = [a for a in own_nodes(pf) if isinstance(a, ast.Assign) and norm(a) == 'left, right = match_types(left, right)']
+        for r in rets:
+            ok = norm(r.value) == 'left.%s(right)' % meth and len(matched) == 1 and matched[0].lineno < r.lineno and not ctx.flow(pf).facts(r)
+            rep.ob('relation.primitive-single-path', '%s: every result is left.%s(right) of the type-matched operands' % (prim, meth), ok,
+                   'a result that bypasses the matched relation (%s): zeros in different encodings, or operands of different widths, compare by their bytes' % short(r, 60),
+                   ctx.where(r))
+        rep.floor('relation.primitive-single-path.%s' % prim, len(rets), 1, 'returns')
     # 3. Float.eq: zero first
     feq = ctx.fn(N + ':Float.eq')
     fl = ctx.flow(feq)
@@ -229,6 +240,9 @@ def variants(ctx):
         Va('gte-uses-same-order', 'break', V,
            in_fn('gte', lambda fn: mu.replace_expr(fn, mu.text_is('_bool_gt(right, left)'), '_bool_gt(left, right)')),
            expect='relation'),
+        Va('eq-shortcut-compares-bytes', 'break', V,
+           in_fn('_bool_eq', lambda fn: mu.insert_first(fn, "if isinstance(left, numbers.Number) and type(left) is type(right):\n    return left.to_bytes() == right.to_bytes()")),
+           expect='relation.primitive-single-path'),
         Va('neq-loses-not', 'break', V,
            in_fn('neq', lambda fn: mu.replace_expr(fn, mu.text_is('not _bool_eq(left, right)'), '_bool_eq(left, right)')),
            expect='relation'),
